@@ -79,7 +79,21 @@ def make_const(c):
     dt = {'f8': float, 'f4': np.float32, 'i8': np.int64, 'bool': bool, 'sparse': float}[k]
     a = np.array(c['data'], dtype=dt).reshape(c['shape'])
     if k == 'sparse':
-        return sp.csr_matrix(a)
+        # csr / csc / coo by the content; the coo form stores some entries in two parts (repeated
+        # positions are summed, as every scipy operation and toarray() do) and explicit zeros
+        form = int(abs(a).sum() * 1000) % 4
+        if form == 0:
+            return sp.csr_matrix(a)
+        if form == 1:
+            return sp.csc_matrix(a)
+        r_, c_ = np.nonzero(a)
+        v_ = a[r_, c_]
+        half = np.round(v_ / 2, 3)
+        rows = np.concatenate([r_, r_, [0]])
+        cols = np.concatenate([c_, c_, [0]])
+        data = np.concatenate([half, v_ - half, [0.0]])
+        m_ = sp.coo_matrix((data, (rows, cols)), shape=a.shape)
+        return m_ if form == 2 else sp.csr_matrix((data, (rows, cols)), shape=a.shape)
     return a
 
 
